@@ -171,7 +171,7 @@ def free_unit(draw, n):
 
 
 def _shape(draw):
-    return draw(st.sampled_from([[], [], [1], [2], [3]]))
+    return draw(st.sampled_from([[], [], [1], [2], [3], [2, 2], [2, 3], [3, 1]]))
 
 
 @st.composite
@@ -187,7 +187,7 @@ def chords_case(draw, dims=(2, 3, 4), free=True):
             units.append(draw(free_unit(n)))
         else:
             units.append(draw(chord_unit(n)))
-    return dict(n=n, shape=shape, units=units, ctor=draw(st.integers(0, 2)),
+    return dict(n=n, shape=shape, units=units, ctor=draw(st.sampled_from([0, 1, 2, 3, 4])),
                 model=model,
                 obj=draw(st.sampled_from(["segment", "segment", "geodesic"])))
 
@@ -209,7 +209,25 @@ def build_segment(case):
                                   hyperbolic.Point(Q.copy(), model="klein"))
     if ctor == 1:
         return hyperbolic.Segment(_proj(P), _proj(Q))
-    return hyperbolic.Segment(np.stack([_proj(P), _proj(Q)], axis=-2))
+    seg = hyperbolic.Segment(np.stack([_proj(P), _proj(Q)], axis=-2))
+    if ctor == 3 and len(shape) >= 1:
+        # the segment has been copied and the *copy* edited: the original is still the
+        # segment of the case (its derived data must not be shared with the copy)
+        work = hyperbolic.Segment(seg)
+        other = hyperbolic.Segment(np.array([[1.0, 0.11] + [0.0] * (n - 1),
+                                             [1.0, -0.2, 0.31] + [0.0] * (n - 2)]))
+        work[0] = other if len(shape) == 1 else hyperbolic.Segment([other] * shape[1])
+        flat = seg.flatten_to_unit()
+        flat[0] = other
+        return seg
+    if ctor == 4 and len(shape) >= 1:
+        # built item by item into a composite that held other segments before
+        work = hyperbolic.Segment(np.stack([_proj(Q[..., ::-1] * 0.5), _proj(P * 0.3 + 0.05)],
+                                           axis=-2))
+        for i in range(shape[0]):
+            work[i] = hyperbolic.Segment(np.stack([_proj(P[i]), _proj(Q[i])], axis=-2))
+        return work
+    return seg
 
 
 def unit_iter(shape):
@@ -585,7 +603,7 @@ def straight_case(draw):
         p = [h * x + a * y for x, y in zip(e, d)]
         q = [h * x + b * y for x, y in zip(e, d)]
         units.append(dict(p=p, q=q, kind="ii", h=h))
-    return dict(n=n, shape=shape, units=units, ctor=draw(st.integers(0, 2)),
+    return dict(n=n, shape=shape, units=units, ctor=draw(st.sampled_from([0, 1, 2, 3, 4])),
                 model="poincare", obj=draw(st.sampled_from(["segment", "geodesic"])))
 
 
